@@ -665,6 +665,12 @@ func syncIndexedDoc(
 		return err
 	}
 
+	if isNewDoc && isDeletedDoc {
+		// The document is not visible before nor after the merge (it was merged in already deleted,
+		// or commits were merged into a deleted document), there is nothing to index.
+		return nil
+	}
+
 	if isNewDoc {
 		return col.indexNewDoc(ctx, doc)
 	} else if isDeletedDoc {
